@@ -2,6 +2,7 @@
 (* (T) validates ndjson traces recorded from pkg/twcc (Recorder and SenderInterceptor) against Twcc.  Events:
      {"a":"reset","lvl":"rec"|"icpt","rb":n}       new instance; arrival times are offsets from rb * 64 ms
      {"a":"rec","w":n16,"t0":us,"t1":us}           Record(w) with an arrival time in [t0, t1]
+     {"a":"recrun","w":n16,"n":k,"t":us,"dt":us}   k Records of w, w+1, ... at t, t+dt, ... on the fresh recorder
      {"a":"build","fl":bool,"out":[P..]}           BuildFeedbackPacket returned these packets, each logged in the
                                                    structural form it has after rtcp Marshal + Unmarshal; fl (only
                                                    at interceptor level): a read was in flight when the feedback
@@ -40,6 +41,10 @@ Next ==
      ELSE IF taint # "" THEN l' = l + 1 /\ UNCHANGED <<rb, x, devs, taint, adv>>
      ELSE IF e.a = "inconclusive" THEN
         /\ PrintT(<<"INCONCLUSIVE", l>>) /\ taint' = "INCONCLUSIVE" /\ l' = l + 1 /\ UNCHANGED <<rb, x, devs, adv>>
+     ELSE IF e.a = "recrun" THEN      \* n consecutive numbers on a fresh recorder (closed form, see Twcc!RecRun)
+        IF x = Fresh0 /\ e.n >= 1 /\ e.n <= HMAX
+        THEN x' = RecRun(e.w, e.n, e.t, e.dt) /\ l' = l + 1 /\ UNCHANGED <<rb, devs, taint, adv>>
+        ELSE PrintT(<<"MISMATCH", l, "recrun outside its precondition">>) /\ FALSE
      ELSE IF e.a = "rec" THEN
         IF adv = 1 THEN l' = l + 1 /\ adv' = 0 /\ UNCHANGED <<rb, x, devs, taint>>
         ELSE /\ x' = RecordStep(x, e.w, e.t0, e.t1) /\ devs' = devs \cup NewDevs(e) /\ l' = l + 1
